@@ -57,6 +57,7 @@ inline void genMembers(Plan& p, Rng& r, size_t maxMembers, size_t maxLen, bool a
 		if (r.chance(1, 8) || (i < 2 && twinStart)) nm = digestTwin(names, r, 40); // different names with one 32-bit digest (every fourth world starts with such a pair)
 		if (!names.empty() && r.chance(1, 4)) { std::string sib = bit5Sibling(names[r.below(names.size())], r); if (!sib.empty()) nm = sib; }
 		else if (r.chance(1, 6)) { static const char* P[] = {"[", "{", "@", "`", "^", "~", "]", "}"}; nm.insert(r.below(nm.size() + 1), P[r.below(8)]); }
+		if (!nm.empty() && nm[0] == '_') nm[0] = '^'; // harness-owned paths start with '_'
 		names.push_back(nm);
 		Line m = mkline("world", "member");
 		uint64_t k = r.below(10);
